@@ -17,6 +17,9 @@
 (* The universe (adversarial names, kinds, features) comes from IOEnv.UNIV   *)
 (* with the real keyword sets in IOEnv.KW, so that every counterexample is   *)
 (* a concrete problem that the driver replays on the real writers.           *)
+(* User types (kind "type"): the rule for PDDL's root type `object` is part   *)
+(* of PddlStep; the feature "hier" of a problem (the types form a chain)     *)
+(* changes the emitted (:types ...) text, not the names.                     *)
 (* lower() is modelled on ASCII (the universe is ASCII plus symbols that     *)
 (* lower() leaves alone).                                                    *)
 (***************************************************************************)
@@ -60,7 +63,11 @@ PddlBase(it, K) ==
 \* _get_mangled_name(item) for an item not yet in otn; returns the new [otn, nto]
 PddlStep(items, K, i, otn, nto) ==
    LET it == items[i]
-       tmp == PddlBase(it, K)
+       base == PddlBase(it, K)
+       \* user types: "object" is PDDL's root type, a user type whose LOWERED name is object keeps it only when
+       \* it is the only user type (hierarchical typing implies a second type)
+       ntypes == Cardinality({j \in DOMAIN items : items[j].kind = "type"})
+       tmp == IF it.kind = "type" /\ base = OBJECT /\ ntypes > 1 THEN base \o <<US>> ELSE base
        new == IF tmp = it.orig /\ tmp \notin DOMAIN nto THEN tmp
               ELSE FreshName(tmp, tmp, 0, GlobalNames(items) \cup DOMAIN nto)
    IN [otn |-> otn @@ (i :> new), nto |-> nto @@ (new :> i)]
